@@ -256,7 +256,79 @@ func Replay(walk []json.RawMessage, names, ssids []string, label string, lic int
 		ev["coalesced"] = c.coalesced()
 		tr.Events = append(tr.Events, core.Ev(ev))
 	}
+	// forwarding probes: a real publish on every broker for every ssid (the trace spec constrains them at quiescence)
+	for _, b := range names {
+		for _, s := range ssids {
+			ev, err := c.probe(b, s)
+			if err != nil {
+				return nil, err
+			}
+			ev["coalesced"] = c.coalesced()
+			tr.Events = append(tr.Events, core.Ev(ev))
+		}
+	}
 	return tr, nil
+}
+
+var probeSeq int64
+
+// probe publishes one message on broker b for ssid s, moves the peer frames it produces to their destinations and
+// reports which brokers were sent a frame and how many copies each broker's client received.
+func (c *cluster) probe(b, s string) (map[string]any, error) {
+	x := c.nodes[b]
+	for _, n := range c.names {
+		c.nodes[n].nd.Unicasts = nil
+	}
+	payload := fmt.Sprintf("probe-%d", atomic.AddInt64(&probeSeq, 1))
+	x.mid++
+	x.cl.Send(&mqtt.Publish{Header: mqtt.Header{QOS: 1}, MessageID: x.mid, Topic: []byte(x.key + "/" + s + "/"), Payload: []byte(payload)})
+	got := map[string]int{}
+	count := func(n string, pk []mqtt.Message) {
+		for _, m := range pk {
+			if p, ok := m.(*mqtt.Publish); ok && string(p.Payload) == payload {
+				got[n]++
+			}
+		}
+	}
+	pk, err := x.cl.Barrier(8 * time.Second)
+	if err != nil {
+		return nil, fmt.Errorf("probe publish: %v", err)
+	}
+	count(b, pk)
+	// the peers flush their frames on a 5 ms ticker: wait for the frames, then hand them to the destinations
+	fwd := map[string]bool{}
+	deadline := time.Now().Add(24 * time.Millisecond)
+	for time.Now().Before(deadline) {
+		time.Sleep(8 * time.Millisecond)
+	}
+	for _, u := range x.nd.Unicasts {
+		dst, ok := c.byPeer[uint64(u.Src)]
+		if !ok {
+			continue
+		}
+		fwd[dst] = true
+		c.nodes[dst].b.Svc.VerifCluster().OnGossipUnicast(x.peer, u.Buf)
+	}
+	for _, n := range c.names {
+		if n == b {
+			continue
+		}
+		pk, err := c.nodes[n].cl.Barrier(8 * time.Second)
+		if err != nil {
+			return nil, fmt.Errorf("probe barrier: %v", err)
+		}
+		count(n, pk)
+	}
+	fl, gl := []string{}, [][]any{}
+	for _, n := range c.names {
+		if fwd[n] {
+			fl = append(fl, n)
+		}
+		if got[n] > 0 {
+			gl = append(gl, []any{n, got[n]})
+		}
+	}
+	return map[string]any{"e": "probe", "b": b, "s": s, "fwd": fl, "got": gl}, nil
 }
 
 func set(xs []string) string {
@@ -301,7 +373,7 @@ func Explore(c *core.Ctx) int64 {
 	var nontrivial int64
 	for ci, k := range confs {
 		mc := func(gen string, ops, per int, view bool) string {
-			s := fmt.Sprintf("CONSTANTS\n Brokers = %s\n Ssids = %s\n MaxOps = %d\n MaxPeriodic = %d\n Gen = %q\nINIT MCInit\nNEXT MCNext\nINVARIANTS RoutingAtQuiescence ConvergedAtQuiescence Dump\n", set(k.names), set(ssids), ops, per, gen)
+			s := fmt.Sprintf("CONSTANTS\n Brokers = %s\n Ssids = %s\n MaxOps = %d\n MaxPeriodic = %d\n Gen = %q\nINIT MCInit\nNEXT MCNext\nINVARIANTS RoutingAtQuiescence ForwardingAtQuiescence ConvergedAtQuiescence Dump\n", set(k.names), set(ssids), ops, per, gen)
 			if view {
 				s += "VIEW View\n"
 			}
